@@ -734,6 +734,23 @@ func cmdExtendSweep(args []string) int {
 		}
 	}
 	docs := [][]Tok{}
+	// attribute families: one document per (element, attribute) of the alphabet
+	attrEls := []string{}
+	for el := range fam.Attrs {
+		attrEls = append(attrEls, el)
+	}
+	sort.Strings(attrEls)
+	for _, el := range attrEls {
+		n := Dec(el)
+		for _, a := range decAttrs(fam.Attrs[el]) {
+			st := Tok{T: "start", N: n, A: []Attr{a}}
+			if VoidEls[n] {
+				docs = append(docs, []Tok{st})
+			} else {
+				docs = append(docs, []Tok{st, {T: "text", D: "x", A: []Attr{}}, {T: "end", N: n, A: []Attr{}}})
+			}
+		}
+	}
 	for _, a := range starts {
 		docs = append(docs, []Tok{a, {T: "text", D: "x", A: []Attr{}}, {T: "end", N: a.N, A: []Attr{}}})
 		for _, b := range starts {
